@@ -135,7 +135,9 @@ def build(sheets, names=None, date1904=False, hidden=()):
     for i, (title, _) in enumerate(sheets, 1):
         wb.append('<sheet name="%s" sheetId="%d"%s r:id="rId%d"/>'
                   % (escape(title, {'"': '&quot;'}), i,
-                     ' state="hidden"' if title in hidden else '', i))
+                     ' state="%s"' % (hidden[title] if isinstance(
+                         hidden, dict) else 'hidden')
+                     if title in hidden else '', i))
     wb.append('</sheets>')
     if names:
         wb.append('<definedNames>')
